@@ -42,11 +42,11 @@ static int scan (int argc, char **argv)
 {
   OrcTarget *t = orc_target_get_by_name (argv[2]);
   unsigned long kval = strtoul (argv[3], NULL, 16);
-  static const unsigned sse_bits[] = {1, 2, 4, 8, 16}, avx_bits[] = {1, 2, 4, 8, 16, 1024, 2048}, mmx_bits[] = {1, 2, 16, 32, 64};
+  static const unsigned sse_bits[] = {1, 2, 4, 8, 16}, avx_bits[] = {1, 2, 4, 8, 16, 1024, 2048}, mmx_bits[] = {1, 2, 4, 8, 16, 32, 64};
   const unsigned *bits = sse_bits; int nb = 5;
   if (!t) return 2;
   if (!strcmp (argv[2], "avx")) { bits = avx_bits; nb = 7; }
-  if (!strcmp (argv[2], "mmx")) { bits = mmx_bits; nb = 5; }
+  if (!strcmp (argv[2], "mmx")) { bits = mmx_bits; nb = 7; }
   OrcOpcodeSet *set = orc_opcode_set_get ("sys");
   for (int o = 0; o < set->n_opcodes; o++) {
     OrcStaticOpcode *op = set->opcodes + o;
